@@ -121,6 +121,14 @@ Proof.
     destruct m; reflexivity.
 Qed.
 
+Lemma payload_v1v4_ok pre ms u :
+  payload_v1v4 pre ms = Ok u ->
+  u = ocell (pre ++ modes_bits ms) (map rm_msg ms) /\ (length ms <= 4)%nat.
+Proof.
+  unfold payload_v1v4. destruct (4 <? length ms)%nat eqn:E; [discriminate|].
+  intros H. apply mk_ok in H. apply Nat.ltb_ge in E. tauto.
+Qed.
+
 (** *** the envelope *)
 Definition init_ok (chash : cell -> res bytes) (init : option cell) : Prop :=
   match init with None => True | Some i => stateinit_ok i = Ok tt end.
